@@ -612,8 +612,20 @@ impl PathIssueManager {
         // Broadcast issue
         self.issue_broadcast_tx.send((id, marker.clone())).ok();
 
-        if self.cache.len() >= self.max_entries {
+        // Make room. A FIFO entry whose issue was re-reported since is stale and removes nothing,
+        // so keep popping until an entry was really evicted (or nothing is left).
+        while self.cache.len() >= self.max_entries {
+            if self.fifo_issues.is_empty() {
+                break;
+            }
             self.pop_front();
+        }
+
+        // Stale FIFO entries of re-reported issues must not accumulate without bound.
+        if self.fifo_issues.len() >= 2 * self.max_entries.max(1) {
+            let cache = &self.cache;
+            self.fifo_issues
+                .retain(|(fid, ts)| cache.get(fid).is_some_and(|m| m.timestamp == *ts));
         }
 
         // Insert issue
